@@ -6,10 +6,11 @@ STATE_POOLS = {
     'int': [0, 1, 2, 3, 4, 5],
     'negint': [-1, -2, 7, 100, 10 ** 12, 3],
     'str': ['', '0', 'A', 's1', 'true', 'p', 'a b'],
-    'tuple': [(), (0,), (0, 1), ('a',), ((1,), 2), (0, 'x')],
+    'tuple': [(), (0,), (0, 1), ('a',), ((1,), 2), (0, 'x'), (frozenset([1]), (2, ('deep', None)))],
     'frozenset': [frozenset(), frozenset([1]), frozenset([1, 2]), frozenset(['p']),
                   frozenset([(1,)]), frozenset([0])],
     'mixed': [0, '0', (0,), frozenset([0]), 'zero', -1, ('x', 1), 2.5],
+    'genlike': ['[E(X(p))]', 'fair', 'fair0', '[A(G(p))]', 'p', 'true', '[[E(X(p))](0)]'],
 }
 LABEL_POOL = ['p', 'q', 'r_1', 'p or q', 'not p', 'true', 'false', 'A', 'E', 'X', 'U', 'fair', 'fair0',
               '[E(X(p))]', '[A(G(p))]', '(p)', 'p and', '', ' ', 'AG', 'Xp', 7, 0, (1, 2), None, 3.5,
@@ -22,19 +23,36 @@ def usable_as_atom(name):
     return isinstance(name, str) and '"' not in name and '\\' not in name and '\n' not in name
 
 
+def fresh(x):
+    """An object equal to x but not identical to it (where Python allows): the same state is
+    handed to S, R and L as three different objects, as a caller reading them from three
+    sources would."""
+    if isinstance(x, str):
+        return ''.join(list(x)) if len(x) > 1 else x
+    if isinstance(x, tuple):
+        return tuple(fresh(y) for y in x) if x else x
+    if isinstance(x, frozenset):
+        return frozenset(list(x))
+    if isinstance(x, int) and not isinstance(x, bool) and abs(x) > 256:
+        return int(str(x))
+    if isinstance(x, float):
+        return float(repr(x))
+    return x
+
+
 def build(inp):
     """Library Kripke for a heterogeneous case: states from a pool, labels from LABEL_POOL."""
     from pyModelChecking.kripke import Kripke
     pool = STATE_POOLS[inp['pool']]
     n = inp['n']
     states = [pool[i] for i in inp['state_idx'][:n]]
-    R = [(states[a], states[b]) for a, b in inp['edges']]
+    R = [(fresh(states[a]), fresh(states[b])) for a, b in inp['edges']]
     L = {}
     for i, lab in enumerate(inp['labels'][:n]):
-        vals = [LABEL_POOL[k] for k in lab]
+        vals = [fresh(LABEL_POOL[k]) for k in lab]
         if vals or i % 2:
-            L[states[i]] = set(vals) if i % 3 else list(vals)
-    return Kripke(S=states, R=R, L=L), states
+            L[fresh(states[i])] = set(vals) if i % 3 else list(vals)
+    return Kripke(S=[fresh(x) for x in states], R=R, L=L), states
 
 
 def formula_for(inp):
@@ -149,11 +167,12 @@ def random_shard(st, shard, nshards, payload):
     def cases(draw):
         pool = draw(hs.sampled_from(sorted(STATE_POOLS)))
         size = len(STATE_POOLS[pool])
-        n = draw(hs.integers(1, min(5, size)))
+        n = draw(hs.integers(1, min(7, size)))
         idx = draw(hs.permutations(list(range(size))))
         edges = []
+        dense = draw(hs.integers(0, 5)) == 0
         for i in range(n):
-            m = draw(hs.integers(1, (1 << n) - 1))
+            m = (1 << n) - 1 if dense else draw(hs.integers(1, (1 << n) - 1))
             edges += [[i, j] for j in range(n) if (m >> j) & 1]
         labels = [draw(hs.lists(hs.integers(0, len(LABEL_POOL) - 1), max_size=3, unique=True))
                   for _ in range(n)]
@@ -189,7 +208,8 @@ def random_shard(st, shard, nshards, payload):
 
 
 def run(ctx):
-    ctx.rule = ('Hypothesis structures (1-5 states) whose states come from pools of ints, big/negative '
+    ctx.rule = ('Hypothesis structures (1-7 states, sometimes complete graphs; every state handed to S, R and L as '
+                'equal but distinct objects) whose states come from pools of ints, big/negative '
                 'ints, strings (incl. \'\', \'0\', \'A\', \'true\'), tuples, frozensets or mixed types, '
                 'and whose label sets hold identifier strings, operator-looking strings (\'p or q\', '
                 '\'not p\', \'true\', \'A\', \'fair\', \'[E(X(p))]\'), and non-strings (ints, tuples, '
